@@ -226,7 +226,7 @@ func TestC15RaceKnown(t *testing.T) {
 		{Engine: "exp", HonestLen: 40, Nodes: 2, Cap: 5, Readers: 2, Events: 1, KnownPass: true},
 	} {
 		if _, err := safeRun(runC15Race, p); err != nil && !strings.HasPrefix(err.Error(), "infra:") {
-			path := filepath.Join(verifDir(), "replays", "C15", fmt.Sprintf("viol-TestC15RaceKnown-%s.json", p.Engine))
+			path := filepath.Join(violDir("C15"), fmt.Sprintf("viol-TestC15RaceKnown-%s.json", p.Engine))
 			writeReplay(path, "C15", "TestC15Race", p, firstLine(err.Error()))
 			stats.AddViolation(stats.Violation{Property: "C15", Replay: path, Message: firstLine(err.Error())})
 			t.Errorf("%v", err)
